@@ -159,6 +159,8 @@ def model_case(obs):
             mops.append("D:%s:%s:%s" % (o["sid"], o["jd"], deaths))
             st = int(o["status"])
             res = {404: "refused", 500: "bad", 200: "ok"}.get(st, "other%d" % st)
+            if st == 200 and o["grew"] == "1":
+                res = "ok:" + o["ent"].split(".")[5]       # the Data of the proposed DeleteSession entry (quit message as cut by the handler)
             want.append("D:%s:%s" % (res, "1" if o["alive"] == "true" else "0")); entries += int(o["grew"])
         elif k == "S" or (k == "K" and "markers_same" in o):
             # K = real FSM.Snapshot (compaction fold) + Persist + FSM.Restore; the model's restore is the identity on
